@@ -29,6 +29,9 @@ ASSUMPTIONS = ["the magnitude of a row's right-hand side is compared with the li
 REQUIRED_TAGS = {"all": ["rows", "cw_first_cell", "ccw_first_cell", "estimator", "solution", "cells_without_interface", "linearity", "physics_curved", "physics_straight", "disconnected_no_verdict", "live_sequence", "straight_among_curved", "straight_solution"]}
 
 
+ZOO = ["lens", "fan5", "square3x3", "brick3x3"]      # two interfaces sharing both ends, a 5-fold junction, 4-fold junctions, T-junctions
+
+
 def analytic_side(at, cm, k):
     """for every abstract interface: (centre-side cell, other cell, curvature 1/R) from the image arc (None for straight)"""
     jpos, ipts = T.geometry(at, max(k, 1), cm)
@@ -113,6 +116,10 @@ class Rows(ProductSystem):
         at = self.abstract(base)
         cm = SC.make_cmap(base[2], 0.3, (0, 0), 1.0, SC.extent_of(bases.get(base[0])))
         lab = {"flips": cfg["orient"], "order": cfg["order"], "shifts": cfg["shift"]}
+        ends = [frozenset((at["I"][ii]["a"], at["I"][ii]["b"])) for ii in cfg["straight"]]
+        if len(set(ends)) < len(ends):
+            # two two-point interfaces between the same pair of junctions are the same pair of vertices: not a planar mesh
+            return {"viol": [], "tags": ["coincident_two_point_interfaces"], "cls": "outside", "obs": None, "outdom": True}
         s, fr, info, inv, ex = pressure_rows(at, cm, cfg["k"], lab, straight=cfg["straight"])
         if ex is not None:
             return {"viol": [{"what": "build_pressure_matrix raised", "detail": fsutil.exc_str(ex)}], "tags": [], "cls": "exc", "obs": None}
@@ -506,6 +513,7 @@ def build(tier, seed):
         phys = [{"base": b, "mob": m, "k": k} for b in ("v5x5", "v6x5") for m in (M, ["mc", 0.12, 0.05], ["id"]) for k in (3, 5, 8, 15)]
         return [Rows("rows-orientations-all", [["v5x5", b6, M]], 1, ["orient_all"]),
                 Rows("rows-d2", [["v5x5", None, M], ["v4x4p%d" % (seed + 1), None, ["mc", 0.12, 0.05]]], 2, []),
+                Rows("rows-shapes-d1", [[b, None, m] for b in ZOO for m in (M, ["id"])], 1, []),
                 est,
                 Solutions("v5x4", ["id", "rev", "rot"]),
                 Solutions("v5x5", ["id", "rev"]),
@@ -513,6 +521,9 @@ def build(tier, seed):
     phys = [{"base": b, "mob": m, "k": k} for b in ("v5x5", "v6x5", "v6x6", "v7x6") for m in (M, ["mc", 0.12, 0.05], ["m", 0.01, 0.0], ["id"]) for k in (3, 4, 5, 8, 15)]
     return [Rows("rows-orientations-all", [["v5x5", None, M]], 1, ["orient_all"]),
             Rows("rows-d2", [["v5x5", None, M], ["v6x5", None, ["mc", 0.12, 0.05]], ["v4x4p%d" % (seed + 1), None, M]], 2, []),
+            Rows("rows-shapes-d2", [[b, None, m] for b in ZOO + ["fan4", "fan6", "hex3x3"] for m in (M, ["mc", 0.12, 0.05], ["id"])], 2, []),
+            Solutions("fan5", ["id", "rev"]),
+            Solutions("square3x3", ["id", "rot"]),
             est,
             Solutions("v5x5", ["id", "rev", "rot"]),
             ListSystem("physics", phys, eval_physics)]
